@@ -2,124 +2,95 @@
    Statements only; the model is theories/Select.v (SevenZipFile.extract/_extract,
    Worker.extract/_extract_single/_check, ArchiveFileList numbering, remove_trailing_slash),
    the proofs are in theories/SelectProofs.v.
-   impl_extract to_dir a T recursive : what extract(targets=T, recursive=...) delivers ((name, bytes)
-   in order of delivery) and the mkdir(parents=True) calls; impl_extract_all: extractall.
-   all_members a: every non-directory member once, under its own name, with its own bytes.
-   sel: the decision of _extract (`in targets` / `startswith`); spec_sel: named members and
-   members beneath a named directory.
+   impl_extract stored to_dir a T recursive : what extract(targets=T, recursive=...) delivers
+   ((name, bytes) in order of delivery) and the mkdir(parents=True) calls; impl_extract_all:
+   extractall.  all_members a: every non-directory member once, under its own name, with its own
+   bytes.  sel: the decision of _extract (`in targets`, recursive: or
+   `startswith(target + "/")`); spec_sel: named members and members beneath a named directory.
    stored: which numbering the folder file lists carry: true = the header index of each member
-   (py7zr since the repair `use each member's own index as its id in multi-folder extraction`),
-   false = ArchiveFileList offset+index (py7zr before it); the harness observes which one the
-   implementation has and uses the model with that flag. *)
+   (py7zr as it is, since the repair `use each member's own index as its id in multi-folder
+   extraction`); false = ArchiveFileList offset+index (py7zr before it; kept as a documented
+   regression example: the harness observes which numbering the implementation has, runs the
+   model with that flag, and reports the offset numbering as the violation proved below). *)
 From P7 Require Import Prelude Select SelectProofs.
 From Coq Require Import Permutation.
 
-(* the main statement: for archives whose folder file lists are numbered consistently with the
-   header (every single-folder archive; multi-folder archives without an empty-stream entry
-   between two data members of one folder) and targets that are string prefixes of member names
-   only along '/' boundaries: the selective result -- delivered members with bytes and order,
-   and the directories made -- is the restriction of the full result, and the full result is
-   every member with its own bytes *)
-Theorem C09_extract_restrict : forall stored m a T recursive,
-  wf_archive a -> ids_consistent stored a -> targets_prefix_ok a T ->
+(* the main statement (the code as it is): for every archive and every collection of targets the
+   selective result -- delivered members with their bytes, in order -- is the restriction of the
+   full result to the named members and the members beneath a named directory, and the full
+   result is every member with its own bytes *)
+Theorem C09_extract_restrict : forall m a T recursive,
+  wf_archive a ->
+  delivered (impl_extract true m a T recursive)
+  = filter (fun x => spec_sel T recursive (fst x)) (delivered (impl_extract_all true m a))
+  /\ delivered (impl_extract_all true m a) = all_members a.
+Proof. exact extract_restrict_stored. Qed.
+Print Assumptions C09_extract_restrict.
+
+(* the same for either numbering under the hypothesis that the numbering of the folder file lists
+   agrees with the header, and for the whole result (directories made included) *)
+Theorem C09_extract_restrict_any_numbering : forall stored m a T recursive,
+  wf_archive a -> ids_consistent stored a ->
   delivered (impl_extract stored m a T recursive)
   = filter (fun x => spec_sel T recursive (fst x)) (delivered (impl_extract_all stored m a))
   /\ delivered (impl_extract_all stored m a) = all_members a.
 Proof. exact extract_restrict. Qed.
-Print Assumptions C09_extract_restrict.
+Print Assumptions C09_extract_restrict_any_numbering.
 
 Theorem C09_extract_restrict_full : forall stored m a T recursive,
-  wf_archive a -> ids_consistent stored a -> targets_prefix_ok a T ->
+  wf_archive a -> ids_consistent stored a ->
   impl_extract stored m a T recursive = spec_run m a (spec_sel T recursive)
   /\ impl_extract_all stored m a = spec_run m a all_true.
 Proof. exact extract_restrict_full. Qed.
 Print Assumptions C09_extract_restrict_full.
 
-(* the quantifier of the property: prefix-free member names, targets = member names (with or
-   without a trailing slash) or absent names that are no string prefix of a member name *)
-Theorem C09_extract_restrict_members : forall stored m a T recursive,
-  wf_archive a -> prefix_free_names a -> ids_consistent stored a ->
-  (forall t, In t T -> In (remove_trailing_slash t) (names a)
-                       \/ (forall n, In n (names a) -> startswith n (remove_trailing_slash t) = false)) ->
-  delivered (impl_extract stored m a T recursive)
-  = filter (fun x => spec_sel T recursive (fst x)) (delivered (impl_extract_all stored m a))
-  /\ delivered (impl_extract_all stored m a) = all_members a.
-Proof. exact extract_restrict_members. Qed.
-Print Assumptions C09_extract_restrict_members.
-
-(* single-folder (solid) archives with any number of members satisfy the numbering hypothesis *)
-Theorem C09_single_folder_consistent : forall stored a, (numfolders a <= 1)%nat -> ids_consistent stored a.
-Proof. exact ids_consistent_single. Qed.
-Print Assumptions C09_single_folder_consistent.
-
-(* with the repaired numbering the hypothesis is met by every archive *)
+(* the hypothesis is met by every archive with the numbering of the code as it is, and by every
+   single-folder (solid) archive with either numbering *)
 Theorem C09_stored_numbering_consistent : forall a, ids_consistent true a.
 Proof. exact ids_consistent_stored. Qed.
 Print Assumptions C09_stored_numbering_consistent.
 
-Theorem C09_extract_restrict_stored : forall m a T recursive,
-  wf_archive a -> targets_prefix_ok a T ->
-  delivered (impl_extract true m a T recursive)
-  = filter (fun x => spec_sel T recursive (fst x)) (delivered (impl_extract_all true m a))
-  /\ delivered (impl_extract_all true m a) = all_members a.
-Proof. exact extract_restrict_stored. Qed.
-Print Assumptions C09_extract_restrict_stored.
+Theorem C09_single_folder_consistent : forall stored a, (numfolders a <= 1)%nat -> ids_consistent stored a.
+Proof. exact ids_consistent_single. Qed.
+Print Assumptions C09_single_folder_consistent.
 
 (* all_members is every non-directory member exactly once *)
 Theorem C09_all_members_once : forall a, Permutation (all_members a) (canon (all_files a)).
 Proof. exact all_members_perm. Qed.
 Print Assumptions C09_all_members_once.
 
-(* with the offset+index numbering the full statement is false for multi-folder archives: an
-   empty-stream entry between two data members of one folder shifts the ids of the later members *)
-Theorem C09_extract_restrict_multifolder_refuted :
-  exists a T, wf_archive a /\ prefix_free_names a /\ (forall t, In t T -> In t (names a)) /\
-    ~ ids_consistent false a /\
-    delivered (impl_extract false false a T false)
-      <> filter (fun x => spec_sel T false (fst x)) (all_members a) /\
-    delivered (impl_extract_all false false a) <> all_members a.
-Proof. exact extract_restrict_multifolder_refuted. Qed.
-Print Assumptions C09_extract_restrict_multifolder_refuted.
+(* the filter of _extract is the specified selection, for every name and every targets *)
+Theorem C09_sel_spec_agree : forall T recursive n, sel T recursive n = spec_sel T recursive n.
+Proof. exact sel_spec_agree. Qed.
+Print Assumptions C09_sel_spec_agree.
 
-Theorem C09_multifolder_defect_behaviour :
-  delivered (impl_extract false false witness_defect [wD3] false) = [] /\
-  delivered (impl_extract_all false false witness_defect)
-  = [(wA, [1; 1; 1; 1]%Z); (wB, [2; 2]%Z); (wD1, [3; 3; 3; 3]%Z); (wD2, [5; 5; 5]%Z)] /\
-  all_members witness_defect
-  = [(wA, [1; 1; 1; 1]%Z); (wB, [2; 2]%Z); (wD1, [3; 3; 3; 3]%Z); (wD2, [4; 4; 4; 4; 4; 4]%Z);
-     (wD3, [5; 5; 5]%Z)].
-Proof. exact multifolder_defect_behaviour. Qed.
-
-(* ..._partial: what holds of every archive, that layout included: the selective result is the
-   restriction (by the implementation's own filter) of whatever extractall delivers *)
+(* with no hypothesis at all (either numbering): the selective result is the restriction of
+   whatever extractall delivers *)
 Theorem C09_extract_restrict_partial : forall stored m a T recursive,
   delivered (impl_extract stored m a T recursive)
   = filter (fun x => sel T recursive (fst x)) (delivered (impl_extract_all stored m a)).
 Proof. exact extract_restrict_relative. Qed.
 Print Assumptions C09_extract_restrict_partial.
 
-(* the implementation's filter is the specified selection under the prefix side condition *)
-Theorem C09_sel_spec_agree : forall a T recursive n,
-  targets_prefix_ok a T -> In n (names a) -> sel T recursive n = spec_sel T recursive n.
-Proof. exact sel_spec_agree. Qed.
-Print Assumptions C09_sel_spec_agree.
-
-(* names that are not in the archive are ignored *)
+(* names that are not in the archive -- neither a member nor, with recursive, a directory above a
+   member -- are ignored *)
 Theorem C09_absent_ignored : forall stored m a t T recursive,
   ~ In (remove_trailing_slash t) (names a) ->
-  (recursive = true -> forall n, In n (names a) -> startswith n (remove_trailing_slash t) = false) ->
+  (recursive = true -> forall n, In n (names a) -> startswith n (remove_trailing_slash t ++ [47%Z]) = false) ->
   impl_extract stored m a (t :: T) recursive = impl_extract stored m a T recursive.
 Proof. exact absent_ignored. Qed.
 Print Assumptions C09_absent_ignored.
 
-(* ... but not unconditionally: recursive extraction matches by `startswith`, so an absent name
-   that is a string prefix (not a path prefix) of a member name selects that member *)
-Theorem C09_absent_ignored_refuted :
-  exists a t T, wf_archive a /\ prefix_free_names a /\ ~ In (remove_trailing_slash t) (names a) /\
-    (forall n, In n (names a) -> startswith n (remove_trailing_slash t ++ [47%Z]) = false) /\
-    delivered (impl_extract false false a (t :: T) true) <> delivered (impl_extract false false a T true).
-Proof. exact absent_ignored_refuted. Qed.
-Print Assumptions C09_absent_ignored_refuted.
+(* in particular an absent name that is a string prefix (not a path prefix) of a member name:
+   "su" against "sub/x" (refuted while _extract matched with `startswith(target)`) *)
+Theorem C09_absent_string_prefix_ignored :
+  let a := [mkEntry wSubX (KData 0 [7%Z])] in
+  wf_archive a /\ prefix_free_names a /\ ~ In (remove_trailing_slash wSu) (names a) /\
+  startswith wSubX wSu = true /\
+  (forall nm m T, impl_extract nm m a (wSu :: T) true = impl_extract nm m a T true) /\
+  delivered (impl_extract true false a [wSu] true) = [].
+Proof. exact absent_string_prefix_ignored. Qed.
+Print Assumptions C09_absent_string_prefix_ignored.
 
 (* a trailing slash on a target is immaterial; list or set, order and repetition are immaterial *)
 Theorem C09_trailing_slash_immaterial : forall stored m a T1 t T2 recursive,
@@ -146,27 +117,57 @@ Print Assumptions C09_only_parents_created.
 Theorem C09_factory_creates_no_directories : forall stored a p, dirs_created (run stored false a p) = [].
 Proof. exact factory_creates_no_directories. Qed.
 
+(* documented regression example: with the former offset+index numbering the statement is false
+   for multi-folder archives -- an empty-stream entry between two data members of one folder
+   shifts the ids of the later members (witness a b | d1 e(directory) d2 d3, T = [d3]) *)
+Theorem C09_offset_numbering_regression_refuted :
+  exists a T, wf_archive a /\ prefix_free_names a /\ (forall t, In t T -> In t (names a)) /\
+    ~ ids_consistent false a /\
+    delivered (impl_extract false false a T false)
+      <> filter (fun x => spec_sel T false (fst x)) (all_members a) /\
+    delivered (impl_extract_all false false a) <> all_members a.
+Proof. exact extract_restrict_multifolder_refuted. Qed.
+Print Assumptions C09_offset_numbering_regression_refuted.
+
+Theorem C09_offset_numbering_regression_behaviour :
+  delivered (impl_extract false false witness_defect [wD3] false) = [] /\
+  delivered (impl_extract_all false false witness_defect)
+  = [(wA, [1; 1; 1; 1]%Z); (wB, [2; 2]%Z); (wD1, [3; 3; 3; 3]%Z); (wD2, [5; 5; 5]%Z)] /\
+  all_members witness_defect
+  = [(wA, [1; 1; 1; 1]%Z); (wB, [2; 2]%Z); (wD1, [3; 3; 3; 3]%Z); (wD2, [4; 4; 4; 4; 4; 4]%Z);
+     (wD3, [5; 5; 5]%Z)].
+Proof. exact multifolder_defect_behaviour. Qed.
+
+(* the same layout with the numbering of the code as it is *)
+Example C09_gap_layout_now_correct :
+  delivered (impl_extract true false witness_defect [wD3] false) = [(wD3, [5; 5; 5]%Z)] /\
+  delivered (impl_extract_all true false witness_defect) = all_members witness_defect.
+Proof. split; reflexivity. Qed.
+
 (* non-vacuity *)
 Example C09_healthy_multifolder_hypotheses :
   wf_archive witness_healthy /\ prefix_free_names witness_healthy /\ ids_consistent false witness_healthy /\
-  targets_prefix_ok witness_healthy [wD3; wE ++ [47%Z]] /\ numfolders witness_healthy = 2%nat.
+  numfolders witness_healthy = 2%nat.
 Proof. exact healthy_witness_hypotheses. Qed.
 
 Example C09_single_folder_example :
   wf_archive witness_single /\ prefix_free_names witness_single /\ numfolders witness_single = 1%nat /\
-  impl_extract false true witness_single [wDir ++ [47%Z]; wB] true
+  impl_extract true true witness_single [wDir ++ [47%Z]; wB] true
   = mkR [(wNested, [2; 2]%Z); (wB, [3]%Z)] [[wDir]; [wDir; [100%Z]]; []] /\
-  dirs_created (impl_extract false true witness_single [wDir ++ [47%Z]; wB] true)
+  dirs_created (impl_extract true true witness_single [wDir ++ [47%Z]; wB] true)
   = [[wDir]; [wDir]; [wDir; [100%Z]]].
-Proof. exact single_witness_behaviour. Qed.
+Proof. repeat split. Qed.
 
 Example C09_absent_ignored_example :
   ~ In (remove_trailing_slash [113%Z]) (names witness_single) /\
-  (forall n, In n (names witness_single) -> startswith n (remove_trailing_slash [113%Z]) = false) /\
-  impl_extract false true witness_single [[113%Z]; wB] true = impl_extract false true witness_single [wB] true.
-Proof. exact absent_ignored_example. Qed.
+  (forall n, In n (names witness_single) -> startswith n (remove_trailing_slash [113%Z] ++ [47%Z]) = false) /\
+  impl_extract true true witness_single [[113%Z]; wB] true = impl_extract true true witness_single [wB] true.
+Proof.
+  split; [vm_compute; intuition discriminate|]. split; [|reflexivity].
+  intros n Hn. vm_compute in Hn. intuition (subst; reflexivity).
+Qed.
 
 Example C09_trailing_slash_example :
   remove_trailing_slash wDir = wDir /\
-  impl_extract false true witness_single [wDir ++ [47%Z]] true = impl_extract false true witness_single [wDir] true.
+  impl_extract true true witness_single [wDir ++ [47%Z]] true = impl_extract true true witness_single [wDir] true.
 Proof. split; reflexivity. Qed.
